@@ -6,7 +6,7 @@ import os
 HERE = os.path.dirname(os.path.abspath(__file__))
 VERIF = os.path.dirname(HERE)
 GEN = os.path.join(VERIF, "lean", "Treepath", "Generated")
-SRC = "/repo/src/treepath"
+SRC = os.path.join(os.environ.get("VERIF_REPO", "/repo"), "src", "treepath")
 
 
 def write_if_changed(path, text):
